@@ -38,6 +38,11 @@ struct Step {
     level: Vec<u8>,
     #[serde(default)]
     kind: String,
+    /// hold_handler: the unit whose handler the application keeps locked, and for how long (real milliseconds)
+    #[serde(default)]
+    unit: u8,
+    #[serde(default)]
+    ms: u64,
 }
 
 #[derive(Deserialize)]
@@ -101,11 +106,11 @@ async fn run_scenario(sc: &Scenario, sink: &Sink) {
     }));
 
     let mut map = ServerHandlerMap::new();
+    let mut wrapped = std::collections::HashMap::new();
     for u in &sc.units {
-        map.add(
-            UnitId::new(*u),
-            DbHandler::new(*u, sc.seed, &holes, sink.clone()).wrap(),
-        );
+        let h = DbHandler::new(*u, sc.seed, &holes, sink.clone()).wrap();
+        wrapped.insert(*u, h.clone());
+        map.add(UnitId::new(*u), h);
     }
     let framing = if sc.framing == "rtu" {
         Framing::Rtu
@@ -168,6 +173,23 @@ async fn run_scenario(sc: &Scenario, sink: &Sink) {
             "drop" => {
                 sink.emit(json!({"e":"cmd","kind":"drop"}));
                 handle = None;
+            }
+            "hold_handler" => {
+                // the application keeps one unit's handler locked for a while (it is doing something with its data):
+                // whatever the session needs that handler for waits -- nothing is skipped
+                if let Some(h) = wrapped.get(&step.unit) {
+                    let h = h.clone();
+                    let ms = step.ms;
+                    let (tx, rx) = std::sync::mpsc::channel();
+                    std::thread::spawn(move || {
+                        let g = h.lock().unwrap_or_else(|e| e.into_inner());
+                        let _ = tx.send(());
+                        std::thread::sleep(std::time::Duration::from_millis(ms));
+                        drop(g);
+                    });
+                    let _ = rx.recv();
+                }
+                continue;
             }
             "reopen" => {
                 // what RtuServerTask::run does after a session error: run the same session
